@@ -163,3 +163,8 @@ def run(C, R):
         R.floor('C09.R4 SendComplete-writes[%s]' % cfg, nsc, 2)
         R.floor('C09.R5 direct-handovers[%s]' % cfg, ndirect, 1)
         R.floor('C09.R3 queue-op-kinds[%s]' % cfg, nq, 5)
+        if cfg != 'none':
+            # R6: "capacity 0 => rendezvous" and "at most `capacity` accepted values" rest on the buffers
+            # reporting the capacity they were asked for (same rule instances as C19.R4)
+            from props.c19 import heap_variants
+            heap_variants(R, E, F, 'C09.R6', cfg)
